@@ -95,3 +95,6 @@ def extra(ctx, cov):
         f.write("".join("# " + l + "\n" for l in err.split("\n")[:80]))
         f.write("\n".join(lines[start:k + 1]) + "\n")
     return [("sanitizer report at op %s: %s" % (lines[k] if k < len(lines) else "?", (err.strip().split("\n") or [""])[0][:300]), path)]
+
+# source pins: the C the Lean model mirrors (see tools/pins.py)
+PINS = [('mpz/init.c', None), ('mpz/init2.c', None), ('mpz/realloc.c', None), ('mpz/realloc2.c', None), ('mpz/set.c', None), ('mpz/clear.c', None)]
